@@ -143,6 +143,7 @@ def h_reno(cfg):
             pre = snapshot(snd)
             n0 = len(tap.log)
             timers_before = {k: t.expire_time for k, t in snd.timers.items()}
+            pre_sent = set(snd.sent_packets.keys())
             state['put'] = False
             env.step()
             steps += 1
@@ -154,6 +155,7 @@ def h_reno(cfg):
                 check('c17.timeout-cwnd', eq(cur['cwnd'], post['cwnd']))
                 check('c17.timeout-rto', eq(cur['rto'], post['rto']))
                 check('c17.timeout-at-expiry', eq(env.now, timers_before[new[0][0]]))
+                check('c17.timeout-retransmits-an-outstanding-segment', new[0][0] in pre_sent, new[0][0])
                 check('c17.timeout-leaves-the-rest', cur['dupack'] == pre['dupack'] and cur['ssthresh'] is pre['ssthresh']
                       and cur['last_ack'] is pre['last_ack'], 'a timeout sets cwnd and doubles the RTO, nothing else')
                 check('c17.cwnd>=mss', ge(cur['cwnd'], MSS))
